@@ -918,8 +918,14 @@ setup_arch(kdump_ctx_t *ctx, unsigned fidx, off_t pos, off_t len,
 		return KDUMP_OK;
 	}
 
+	if (!cpus)
+		return set_error(ctx, KDUMP_ERR_CORRUPT,
+				 "Invalid number of CPUs: %" PRIu32, cpus);
+
 	status = fcache_pread(ctx->shared->fcache, &sz, sizeof sz, fidx, pos);
-	sz /= cpus;
+	if (status != KDUMP_OK)
+		return set_error(ctx, status, "Cannot read CPU state size");
+	sz = dump32toh(ctx, sz) / cpus;
 	if (sz < sizeof(struct sadump_smram_cpu_state))
 		return set_error(ctx, KDUMP_ERR_NOTIMPL,
 				 "CPU state too small: %" PRIu32, sz);
